@@ -50,9 +50,8 @@ Grow(x, S) ==
 RECURSIVE Trees(_)
 Trees(d) == IF d = 1 THEN {A}
             ELSE LET P == Trees(d - 1) IN P \cup Atoms2 \cup UNION {Grow(x, P) : x \in P}
-\* siblings: every tree one level below the bound (FullSib), or one tree per operator/kind (quick tier)
-FewSib == {A} \cup {Bin(op, A, A) : op \in BinOps} \cup {Un(op, A) : op \in UnOps}
-          \cup {Index(A, A), Call(A, <<>>, "false"), Selector(A, "f"), Comp(TT, <<>>)}
+\* siblings: every tree one level below the bound (FullSib), or a leaf, a binary, a unary, a postfix and a literal (quick tier)
+FewSib == {A, Bin("+", A, A), Un("-", A), Index(A, A), Comp(TT, <<>>)}
 Sib == IF FullSib THEN Trees(MaxDepth - 1) ELSE FewSib
 
 StmtsOf(x) ==
